@@ -124,8 +124,8 @@ def trial_json(p):
           'reason': p.infeasible_reason, 'md': svc.md_tuples(p)}
 
 
-def study_spec(spec_tok, md):
-  spec = study_pb2.StudySpec(algorithm='RANDOM_SEARCH')
+def study_spec(spec_tok, md, algorithm='RANDOM_SEARCH'):
+  spec = study_pb2.StudySpec(algorithm=algorithm)
   p = spec.parameters.add(parameter_id='x')
   p.double_value_spec.min_value = 0.0
   p.double_value_spec.max_value = 1000.0 + spec_tok
@@ -236,7 +236,7 @@ class RealRunner:
       self.owners.append(owner)
     sn = self.sname(r)
     if op == 'createStudy':
-      st = study_pb2.Study(display_name=r['display'], study_spec=study_spec(r.get('spec', 0), r.get('md', [])),
+      st = study_pb2.Study(display_name=r['display'], study_spec=study_spec(r.get('spec', 0), r.get('md', []), r.get('algorithm', 'RANDOM_SEARCH')),
                            state=getattr(SSTATE, r.get('state', 'STATE_UNSPECIFIED')))
       if r.get('nameSet'):
         st.name = 'owners/%s/studies/%s' % (owner, r['display'])
